@@ -44,8 +44,8 @@ PROPS = {
                 "debug build (overflow checks, debug_assert) and a release build; non-trivial = distinct non-empty input",
         "extracted_keys": ["FRAME_MAX_PARSE_PAYLOAD", "QSTREAM_MAX", "VARINT_MAX", "CAPSULE_MAX_REASON_LEN", "HUFFMAN_CRATE"],
         "trusted": CODEC_TRUST + ["httlib-huffman (modelled concretely from its regenerated tables)"],
-        "assumptions": ["allocation bound of the QPACK decoder is argued (output <= 77 bytes per input byte via static "
-                        "rows, 8/5 via Huffman) but not yet a theorem"],
+        "assumptions": ["the bound proved for the QPACK decoder is on the decoded map (<= 84 x input bytes); Vec capacity "
+                        "growth inside the Rust allocator is not modelled"],
     },
     "C12": {
         "bins": ["codec", "e2e"],
